@@ -206,7 +206,7 @@ class Statement(object):
         range_count = range(this_index, rel_index)
         if rel_index < this_index:
             positive_range = False
-            range_count = range(rel_index, this_index)
+            range_count = range(rel_index, this_index + 1)
 
         for x in range_count:
             max_size += statements[x].code_pkg.max_size
